@@ -718,6 +718,7 @@ def run(ch, idx, tier):
 
     violations = []
     sigs = []
+    trace = []
     spec_hash = hashlib.sha256(repr(spec).encode()).hexdigest()[:10]
 
     def absorb(res, label):
@@ -729,6 +730,7 @@ def run(ch, idx, tier):
         for f in res["clock_faults"]:
             bump(f"fault:clock_{f}")
         sigs.append((kind, spec["project"], spec_hash, label))
+        trace.append([label, res["exit"], res["history_digest"], res["n_process"]])
 
     ref = execute(spec, None, bump)
     absorb(ref, ref["exit"])
@@ -773,4 +775,4 @@ def run(ch, idx, tier):
     if again["history_digest"] != ref_hist or again["exit"] != ref["exit"]:
         raise RuntimeError(f"HARNESS-NONDETERMINISM: repeated fault-free execution differs ({ref['exit']}/{ref_hist} vs {again['exit']}/{again['history_digest']})")
     sample = {"spec": {k: v for k, v in spec.items() if k != "clock"}, "reference": {k: ref.get(k) for k in ("exit", "n_process", "n_evals", "f_start", "f_final", "clock_elapsed")}, "crash_points": len(points), "violations": [v["cls"] for v in violations]}
-    return {"violations": violations, "stats": stats, "signature": None, "signatures": sigs, "nontrivial": True, "sample": sample}
+    return {"violations": violations, "stats": stats, "signature": None, "signatures": sigs, "nontrivial": True, "sample": sample, "trace": trace}
